@@ -138,6 +138,9 @@ def generate(repo=None, outdir=None):
     enums = enum_values(repo)
     fmap = fileh_mapping(repo, enums)
     cmap = create_mapping(repo)
+    if len(fmap) < 100 or len(enums) < 100:
+        # the expectation tables could not be derived (comments / enum reformatted): infrastructure, never a violation
+        raise build.BuildError("could not derive the type-code tables from File.h / ObjectHeaderBase.h (%d include comments, %d enum values)" % (len(fmap), len(enums)))
     pairs, remainders, pre = codec_tables(repo, recs)
 
     def derives_ohb(name, seen=()):
